@@ -17,18 +17,6 @@ open Rdf List
 
 /-! ## 1. The hypothesis on repositories -/
 
-/-- The repository values of the Documents and Sections (the ones that are set). -/
-def repoVals (ds : List DocT) : List PyVal :=
-  ds.filterMap (fun d => d.attrs.lookup "repository") ++
-    (docSecs ds).filterMap (fun s => s.attrs.lookup "repository")
-
-def classIris : List Str :=
-  [Gen.Format.documentRdfType.toList, Gen.Format.sectionRdfType.toList, Gen.Format.propertyRdfType.toList]
-
-/-- Decidable form of `RepoOK`. -/
-def repoOKB (ds : List DocT) : Bool :=
-  (repoVals ds).all fun v => v.truthy && !classIris.contains v.lex
-
 /-- **RepoOK**: a repository that is set is set to a value that is exported (Python-true: a
     non-empty text), and its URL is not the IRI of one of the three odML classes (the terminology
     node is typed by the URL; `saveRepositoryNode` documents the same assumption). -/
